@@ -65,7 +65,8 @@ theorem RInv.unget_le {st : RState} (h : RInv st) : st.unget.length ≤ maxNeste
 
 theorem ungetChar_ok {st : RState} (h : RInv st) (c : Ch) (hab : above st ≤ 2) :
     ∃ st', ungetChar st c = .ok st' ∧ RInv st' ∧ above st' = above st + 1 ∧
-      avail st' = avail st + 1 ∧ st'.src = st.src ∧ st'.stack = st.stack ∧ st'.marks = st.marks ∧
+      avail st' = avail st + (if toSChar c = EOFc then 0 else 1) ∧
+      st'.src = st.src ∧ st'.stack = st.stack ∧ st'.marks = st.marks ∧
       st'.expand = st.expand ∧ st'.errors = st.errors ∧ st'.arena = st.arena := by
   have hle := h.unget_le
   have hc := caps_fit
@@ -78,7 +79,7 @@ theorem ungetChar_ok {st : RState} (h : RInv st) (c : Ch) (hab : above st ≤ 2)
     · exact h.stack_len
   · have := h.head_le
     simp [above]; omega
-  · simp [avail]; omega
+  · simp [avail, ungetSize]; omega
 
 /-! ### macros_get_char -/
 
@@ -108,7 +109,8 @@ theorem releaseArena_spec (f : Frame) (st : RState) :
 
 theorem popUnget_spec {st : RState} (h : RInv st) (hab : 0 < above st) :
     ∃ c st', popUnget st = .ok (c, st') ∧ RInv st' ∧ above st' + 1 = above st ∧
-      avail st' + 1 = avail st ∧ st'.src = st.src ∧ st'.stack = st.stack ∧ st'.marks = st.marks ∧
+      avail st' + (if c = EOFc then 0 else 1) = avail st ∧
+      st'.src = st.src ∧ st'.stack = st.stack ∧ st'.marks = st.marks ∧
       st'.expand = st.expand ∧ st'.errors = st.errors := by
   have hhd := h.head_le
   cases hu : st.unget with
@@ -123,7 +125,7 @@ theorem popUnget_spec {st : RState} (h : RInv st) (hab : 0 < above st) :
       · exact h.marks_len
       · exact h.stack_len
     · simp [above, hu] at hab ⊢; omega
-    · simp [avail, hu]; omega
+    · simp [avail, hu, ungetSize]; omega
 
 /-- the loop of macros_get_char, entered with nothing ungot above the innermost mark -/
 theorem macrosGetCharGo_spec :
@@ -133,8 +135,8 @@ theorem macrosGetCharGo_spec :
       macrosGetCharGo frames st = .exit1 ∨
       ∃ c st', macrosGetCharGo frames st = .ok (c, st') ∧ RInv st' ∧ above st' = 0 ∧
         st'.src = st.src ∧ st'.expand = st.expand ∧ st'.errors = st.errors ∧
-        st'.unget.length + framesSize st'.stack ≤ st.unget.length + framesSize frames ∧
-        (c ≠ EOFc → st'.unget.length + framesSize st'.stack < st.unget.length + framesSize frames) ∧
+        ungetSize st'.unget + framesSize st'.stack ≤ ungetSize st.unget + framesSize frames ∧
+        (c ≠ EOFc → ungetSize st'.unget + framesSize st'.stack < ungetSize st.unget + framesSize frames) ∧
         st'.stack.length ≤ frames.length := by
   intro frames
   induction frames with
@@ -262,7 +264,7 @@ theorem getChar_spec {st : RState} (h : RInv st) :
       have hab : 0 < above st := by simp [above, hmk]; omega
       obtain ⟨c, st', hp, hi, ha, hav, e1, e2, e3, e4, e5⟩ := popUnget_spec h hab
       right
-      exact ⟨c, st', hp, ⟨hi, by omega, fun _ => by omega, by omega, Or.inr ⟨e1, e4⟩,
+      exact ⟨c, st', hp, ⟨hi, by omega, fun hc => by simp only [hc, if_false] at hav; omega, by omega, Or.inr ⟨e1, e4⟩,
         by rw [e1]; exact Nat.le_refl _, by rw [e2]; exact Nat.le_refl _, e5⟩⟩
     · simp only [hgt, if_false]
       have hgo := macrosGetCharGo_spec st.stack st h.marks_ok h.marks_len h.stack_len
